@@ -233,6 +233,35 @@ def sync_before_ok(P):
         return False, "no Ok return found in the worker", [], cb.span
     fl = [c for c in cb.calls(normal_only=True) if c.callee.get("name") == "flush" and c.callee.get("trait") == "std::io::Write"]
     sy = [c for c in cb.calls(normal_only=True) if c.callee.get("name") == "sync_all"]
+    if not fl and not sy:
+        # the two calls may have been extracted into one helper taking the file: summarise it (flush, then sync_all, each failure returned)
+        for c in cb.calls(normal_only=True):
+            tgt = c.callee.get("resolved") or c.callee.get("path")
+            if not tgt or not P.has_body(tgt) or P.body(tgt).crate != "emit_file":
+                continue
+            hb = P.body(tgt)
+            hf = [x for x in hb.calls(normal_only=True) if x.callee.get("name") == "flush" and x.callee.get("trait") == "std::io::Write"]
+            hs = [x for x in hb.calls(normal_only=True) if x.callee.get("name") == "sync_all"]
+            if len(hf) == 1 and len(hs) == 1 and hb.dominates(hf[0].bb, hs[0].bb) and _q_success_guard(hb, hs[0].bb, hf[0].bb):
+                leaves, sync_returned = [hb.origin(0)], False
+                for _ in range(20):
+                    if not leaves:
+                        break
+                    x = leaves.pop()
+                    if x[0] == "phi":
+                        leaves.extend(x[1])
+                        continue
+                    r0 = mir.o_root(x)
+                    if r0[0] == "call" and r0[1].bb == hs[0].bb:
+                        sync_returned = True
+                sync_returned = sync_returned or any(_q_success_guard(hb, rb, hs[0].bb) for rb in hb.return_blocks())
+                if not sync_returned:
+                    continue
+                oks2 = [(bb, st) for bb, st in oks]
+                for bb, st in oks2:
+                    if not cb.dominates(c.bb, bb) or not _q_success_guard(cb, bb, c.bb):
+                        return False, ("the worker can return Ok (line %s) without the flush-and-sync helper %s having succeeded" % (st.get("line"), tgt)), [], c.loc
+                return True, "", [c.loc, hf[0].loc, hs[0].loc]
     if len(fl) != 1 or len(sy) != 1:
         return False, "expected one Write::flush and one sync_all in the worker, found %d / %d" % (len(fl), len(sy)), [], cb.span
     f, s = fl[0], sy[0]
